@@ -1639,8 +1639,56 @@ def enumerate_scenarios(tier, seed):
     return out
 
 
+
+def outside_handler_probes():
+    """traceback-writing entry points called while NO exception is being handled (a callback, a `finally` after normal completion, a
+    logging.exception() call outside `except`): documented use is inside an except block, but the calls are public logging calls and
+    must not raise into the application (found missing by seeded change C07-4)"""
+    out, n = [], 0
+    def attempt(api, f):
+        nonlocal n
+        n += 1
+        got = []
+        try:
+            f(got)
+        except BaseException as e:  # noqa
+            out.append({"signature": {"clause": "api_raised", "api": api, "raised": type(e).__name__, "where": "outside any except block"},
+                        "scenario": {"probe": "outside_handler", "api": api}, "observed": [repr(e)[:200]]})
+    def with_private(call):
+        def run(got):
+            lg = Logger()
+            saved = Logger._destinations
+            Logger._destinations = d = Destinations()
+            try:
+                d.add(got.append)
+                call(lg)
+            finally:
+                Logger._destinations = saved
+        return run
+    attempt("write_traceback()", with_private(lambda lg: write_traceback()))
+    attempt("write_traceback(logger)", with_private(lambda lg: write_traceback(lg)))
+    attempt("writeTraceback(logger)", with_private(lambda lg: writeTraceback(lg)))
+    def std(kind):
+        def call(lg):
+            slog = logging.Logger("c07.outside.%s" % kind)
+            slog.addHandler(EliotHandler())
+            if kind == "exception":
+                slog.exception("no exception here")
+            else:
+                slog.error("no exception here", exc_info=True)
+        return call
+    attempt("stdlib logger.exception()", with_private(std("exception")))
+    attempt("stdlib logger.error(exc_info=True)", with_private(std("error")))
+    def in_finally(lg):
+        try:
+            pass
+        finally:
+            write_traceback(lg)
+    attempt("write_traceback(logger) in finally after normal completion", with_private(in_finally))
+    return n, out
+
 def main():
-    bound_q = ("programs of <= 3 nested levels / <= 3 ops per level over 15 action styles, 8 message APIs, 4 traceback APIs, stdlib-logging handler; "
+    bound_q = ("programs of <= 3 nested levels / <= 3 ops per level over 15 action styles, 8 message APIs, 4 traceback APIs, stdlib-logging handler; 6 probes of traceback APIs outside any except block; "
                "%d field-value kinds; %d Exception kinds + %d BaseException kinds; <= 4 destinations each failing on all calls / a set of message kinds / "
                "a periodic index mask (period <= 5) / after-before k; all 1- and 2-extractor registrations over 4 classes x 7 behaviours plus random <= 3 over %d classes; "
                "serializer failure masks of period 4; loggers default/private/memory; tier=%s seed=%d") % (
@@ -1661,6 +1709,13 @@ def main():
     truncated = 0
     gd = Logger._destinations
     saved_default = (list(getattr(gd, "_destinations", [])), getattr(gd, "_any_added", None), dict(getattr(gd, "_globalFields", {})))
+    if not args.scenario:
+        pn, pf = outside_handler_probes()
+        cases += pn
+        for f in pf:
+            failing += 1
+            if len(fails) < 5:
+                fails.append(f)
     for idx, sc in enumerate(scs):
         if not args.scenario and time.time() - T0 > budget and not sc.get("corner"):
             truncated = len(scs) - idx
